@@ -43,13 +43,14 @@ def link_table(rng):
         n = rng.randint(3, 7)
         num = rng.choice([1, -3, 98])
         dna = rng.random() < 0.4   # a DNA strand: DA/DC/DG/DT carry the same glycosidic torsion atoms
+        doubled = rng.random() < 0.4   # numbering 7, 7A, 8, 8A, ...: a number without and with an insertion code as backbone neighbours
         for i in range(n):
             base = rng.choice("ACGU")
             d = rng.choice([1500, 1600, 1600, 1900, 1950, 1970, 2000, 2200, 2350, 2390, 2399, 2401, 2410, 2450, 2600, 3000])
             atoms = list(LINK_ATOMS) + ([("N9", (5000, 4800, 1400)), ("C4", (6200, 5200, 1000))] if base in "AG" else [("N1", (5000, 4800, 1400)), ("C2", (6200, 5200, 1000))])
             atoms.append(("O3'", (14000 - d, 0, 0)))
             for nm, (x, y, z) in atoms:
-                table.append({"record_type": "ATOM", "name": nm, "altLoc": "", "resName": ("D" + base.replace("U", "T")) if dna else base, "chainID": chain, "resSeq": num + i, "iCode": "", "element": genatoms.element_of(nm),
+                table.append({"record_type": "ATOM", "name": nm, "altLoc": "", "resName": ("D" + base.replace("U", "T")) if dna else base, "chainID": chain, "resSeq": (num + i // 2) if doubled else (num + i), "iCode": ("A" if doubled and i % 2 else ""), "element": genatoms.element_of(nm),
                               "charge": "", "occ100": 100, "het": False, "model": 1, "serial": serial, "x1000": 14000 * i + x, "y1000": y + 40000 * c, "z1000": z, "b100": 1000})
                 serial += 1
     return table
